@@ -105,6 +105,21 @@ class Blockwise(ArrayExpr):
             "limit": config.get("array.unify-chunks-limit", None),
         }
 
+    @property
+    def _unify_token(self):
+        """What the captured unification settings add to this node's token.
+
+        Nodes are singletons by name and lowering is cached by name, so a node
+        planned under non-default settings must not share a name with the same
+        operands planned under other settings. The defaults add nothing, which
+        keeps every name built under the default configuration unchanged."""
+        if not self.align_arrays:
+            return ()
+        settings = self._unify_config
+        if settings == {"policy": "auto", "limit": None}:
+            return ()
+        return (("unify-chunks", settings["policy"], settings["limit"]),)
+
     def _unified_args(self):
         return unify_chunks_expr(*self.args, **self._unify_config)
 
@@ -323,6 +338,7 @@ class Blockwise(ArrayExpr):
                 # user-given name/token must not look identical to their parents.
                 self.operand("name") if "name" in self._parameters else None,
                 self.operand("token") if "token" in self._parameters else None,
+                *self._unify_token,
                 *args_token,
                 **kwargs_token,
             )
@@ -884,7 +900,7 @@ class Elemwise(Blockwise):
         # so including them is redundant; naming stays purely structural.
         if not self._determ_token:
             try:
-                self._determ_token = _tokenize_deterministic(type(self), *self.operands)
+                self._determ_token = _tokenize_deterministic(type(self), *self._unify_token, *self.operands)
             except TokenizationError:
                 # Rare: an operand (e.g. a non-serializable value in kwargs)
                 # isn't deterministically tokenizable. Fall back to id() for
@@ -895,7 +911,9 @@ class Elemwise(Blockwise):
                     except TokenizationError:
                         return (type(value), id(value))
 
-                self._determ_token = _tokenize_deterministic(type(self), *(token_or_identity(o) for o in self.operands))
+                self._determ_token = _tokenize_deterministic(
+                    type(self), *self._unify_token, *(token_or_identity(o) for o in self.operands)
+                )
         return self._determ_token
 
     @cached_property
